@@ -127,6 +127,8 @@ pub struct Inner {
 }
 
 static NEXT_GEN: std::sync::atomic::AtomicU64 = std::sync::atomic::AtomicU64::new(1);
+/// engines that run the copy of the crate with scheduled channels set this once: every scheduler starts with `real_queue`
+pub static DEFAULT_REAL_QUEUE: std::sync::atomic::AtomicBool = std::sync::atomic::AtomicBool::new(false);
 thread_local! {
     static MY_GEN: std::cell::Cell<u64> = const { std::cell::Cell::new(0) };
     /// dropped when the thread really ends (after any unwinding): only then does a panicking thread give up its turn
@@ -194,7 +196,7 @@ impl Sched {
                 locks: HashMap::new(),
                 next_lock: 0,
                 chans: HashMap::new(),
-                real_queue: false,
+                real_queue: DEFAULT_REAL_QUEUE.load(std::sync::atomic::Ordering::SeqCst),
             }),
             cv: Condvar::new(),
             gen: NEXT_GEN.fetch_add(1, std::sync::atomic::Ordering::SeqCst),
@@ -566,6 +568,16 @@ pub struct ServerStream {
 }
 
 impl ServerStream {
+    /// another handle on the same in-memory connection (what split / try_clone hand out)
+    pub fn dup(&self) -> ServerStream {
+        ServerStream { id: self.id, sched: self.sched.clone() }
+    }
+    pub fn split_fails(&self) -> bool {
+        self.sched.lock().pipes[self.id].split_fails
+    }
+    pub fn shutdown_server(&self) {
+        self.sched.lock().pipes[self.id].server_shutdown = true;
+    }
     fn do_read(&self, out: &mut [u8]) -> io::Result<usize> {
         self.sched.yield_op(Op::Read(self.id));
         let mut st = self.sched.lock();
@@ -793,8 +805,20 @@ fn core_enabled(st: &St, tid: usize, op: &Op, world: &dyn World) -> bool {
 }
 
 fn core_on_grant(st: &mut St, tid: usize, op: &Op) {
-    if st.real_queue && matches!(op, Op::Probe(P::ExecBeforeSend) | Op::Probe(P::DropBeforeTerminate) | Op::Probe(P::WorkerLoopTop) | Op::Probe(P::WorkerBusyDec)) {
-        return;
+    if st.real_queue {
+        match op {
+            Op::Probe(P::ExecBeforeSend) | Op::Probe(P::DropBeforeTerminate) | Op::Probe(P::WorkerLoopTop) => return,
+            // (which job it is does not matter to anybody: "this worker is serving a connection")
+            Op::Probe(P::WorkerDequeued) => {
+                st.threads[tid].holding = Some(QMsg::Job(0));
+                return;
+            }
+            Op::Probe(P::WorkerBusyDec) => {
+                st.threads[tid].holding = None;
+                return;
+            }
+            _ => {}
+        }
     }
     match op {
         Op::Probe(P::ExecBeforeSend) => {
@@ -834,6 +858,11 @@ pub fn hash64(s: &str) -> u64 {
 
 /// Run one execution: replay `prefix`, then always take alternative 0.
 pub fn run_one(build: &dyn Fn(&Sched) -> Scenario, prefix: &[usize], horizon: usize, want_trace: bool) -> Result<Exec, Fail> {
+    // the controller's own uses of scheduled primitives (setting a stop flag, building the scenario) are not scheduling points
+    unscheduled(|| run_one_inner(build, prefix, horizon, want_trace))
+}
+
+fn run_one_inner(build: &dyn Fn(&Sched) -> Scenario, prefix: &[usize], horizon: usize, want_trace: bool) -> Result<Exec, Fail> {
     let sched = Sched::new();
     sched.install();
     let mut sc = build(&sched);
